@@ -227,6 +227,9 @@ func deferredUnlocks(fn *ssa.Function, tb *TB) map[string]ssa.Instruction {
 // where they are created). Depth-bounded fixpoint.
 
 type LockCtx struct {
+	// Dead: unexported functions/methods without any call site in the analysed packages
+	// (callable only from tests): no goroutine of the library ever runs them.
+	Dead  map[*ssa.Function]bool
 	P     *Prog
 	tbs   map[*ssa.Function]*TB
 	infos map[*ssa.Function]*LockInfo
@@ -246,7 +249,7 @@ func (lc *LockCtx) tb(fn *ssa.Function) *TB {
 func classToken(class, mode string) string { return class + "/" + mode + "@<caller>" }
 
 func newLockCtx(P *Prog, pkgs ...string) *LockCtx {
-	lc := &LockCtx{P: P, tbs: map[*ssa.Function]*TB{}, infos: map[*ssa.Function]*LockInfo{}, entry: map[*ssa.Function]LockSet{}}
+	lc := &LockCtx{P: P, Dead: map[*ssa.Function]bool{}, tbs: map[*ssa.Function]*TB{}, infos: map[*ssa.Function]*LockInfo{}, entry: map[*ssa.Function]LockSet{}}
 	inPkg := map[*ssa.Package]bool{}
 	for _, n := range pkgs {
 		inPkg[P.Pkgs[n]] = true
@@ -323,6 +326,42 @@ func newLockCtx(P *Prog, pkgs ...string) *LockCtx {
 	}
 	for _, f := range funcs {
 		lc.entry[f] = LockSet{}
+		if !escapes[f] && len(sites[f]) == 0 && f.Parent() == nil {
+			exported := f.Object() != nil && f.Object().Exported()
+			if exported && f.Signature.Recv() != nil {
+				exported = token.IsExported(recvName(f.Signature.Recv().Type()))
+			}
+			// interface implementations are called through the interface
+			if !exported && f.Signature.Recv() == nil || !exported && !implementsIface(f) {
+				lc.Dead[f] = true
+			}
+		}
+	}
+	// transitively dead: every call site lies in a dead function
+	for changed := true; changed; {
+		changed = false
+		for _, f := range funcs {
+			if lc.Dead[f] || escapes[f] || len(sites[f]) == 0 {
+				continue
+			}
+			exported := f.Parent() == nil && f.Object() != nil && f.Object().Exported()
+			if exported && f.Signature.Recv() != nil {
+				exported = token.IsExported(recvName(f.Signature.Recv().Type()))
+			}
+			if exported || implementsIface(f) {
+				continue
+			}
+			all := true
+			for _, s := range sites[f] {
+				if !lc.Dead[s.caller] {
+					all = false
+				}
+			}
+			if all {
+				lc.Dead[f] = true
+				changed = true
+			}
+		}
 	}
 	for iter := 0; iter < 6; iter++ {
 		for _, f := range funcs {
@@ -335,6 +374,9 @@ func newLockCtx(P *Prog, pkgs ...string) *LockCtx {
 			}
 			var acc map[string]bool
 			for _, s := range sites[f] {
+				if lc.Dead[s.caller] {
+					continue
+				}
 				held := lc.infos[s.caller].Before[s.in]
 				cl := map[string]bool{}
 				for _, c := range held.Classes() {
@@ -380,4 +422,17 @@ func (lc *LockCtx) At(in ssa.Instruction) LockSet {
 		return LockSet{}
 	}
 	return s
+}
+
+// implementsIface: methods of the types that implement the package's internal interfaces
+// (store, ringConsumer) are reached through interface calls.
+func implementsIface(f *ssa.Function) bool {
+	if f.Signature.Recv() == nil {
+		return false
+	}
+	switch recvName(f.Signature.Recv().Type()) {
+	case "shardedMap", "defaultPolicy":
+		return true
+	}
+	return false
 }
